@@ -493,7 +493,7 @@ static std::string do_close_at(const std::string & line) {
             return "FK throws";
         }
 #ifdef VERIF_SCHED_SHIM
-        for (int t = 0; t < 4000 && !g.parked.load(); t++) std::this_thread::sleep_for(std::chrono::microseconds(100));
+        for (int t = 0; t < 1200 && !g.parked.load(); t++) std::this_thread::sleep_for(std::chrono::microseconds(100));
         parked = g.parked.load();
         std::atomic<int> stop(0);
         std::thread helper([&] {
@@ -542,7 +542,7 @@ static std::string do_resize_at(const std::string & line) {
         f.open(path.c_str(), std::ios_base::out);
         if (!f.is_open()) return "FG err open";
 #ifdef VERIF_SCHED_SHIM
-        for (int t = 0; t < 3000 && !g.parked.load(); t++) std::this_thread::sleep_for(std::chrono::microseconds(100));
+        for (int t = 0; t < 1200 && !g.parked.load(); t++) std::this_thread::sleep_for(std::chrono::microseconds(100));
         parked = g.parked.load();
 #endif
         f.setDefaultLogContainerSize(static_cast<uint32_t>(cs2));
